@@ -20,6 +20,7 @@ FullFailures(ev) ==
       pl == RefParsePL(x.sighdr)
       want == HAdd(HAdd(xin.resph, H_ContentEncoding, ContentEncodingName(xin)), DigestHeaderName(xin), DigestText(Draft(xin), enc.top))
       rr == RefRead(ev.file)
+      rrl == RefReadL(ev.file, TRUE)
   IN IF ev.signerr # "" THEN {"signer refused"}
      ELSE
        (IF x.payload = enc.stream /\ HSet(x.resph) = HSet(want) /\ x.uri = xin.uri /\ x.status = xin.status
@@ -33,14 +34,21 @@ FullFailures(ev) ==
              THEN (IF EcdsaVerifyCert(sg.leaf, m, PVal(pl.v[1].params, K_sig)) THEN {} ELSE {"signature does not verify over the specified message"})
              ELSE {"Signature header text"})
   \cup (IF ~HeadersEncodable(x) \/ ev.integrity = S_sha256 \o B64Enc(SHA256(hc), FALSE, TRUE) THEN {} ELSE {"header integrity"})
-  \cup (IF (HeadersEncodable(x) /\ FitsLimitsH(x, hc)) = ~ev.writeerr THEN {} ELSE {"write limits"})
+  \* the request URL is the format's fallback URL ("MUST be an absolute URL with a scheme of https"): Write refuses what
+  \* is plainly not one; where the decision is left to net/url ("either") only the consequence is demanded (read back)
+  \cup (IF UrlClass(x.uri) = "either"
+        THEN (IF (HeadersEncodable(x) /\ FitsLimitsH(x, hc)) \/ ev.writeerr THEN {} ELSE {"write limits"})
+        ELSE (IF (HeadersEncodable(x) /\ FitsLimitsH(x, hc) /\ UrlClass(x.uri) = "ok") = ~ev.writeerr THEN {} ELSE {"write limits"}))
   \cup (IF ev.writeerr \/ ev.file = FileH(x, hc) THEN {} ELSE {"file layout"})
   \cup (IF ev.writeerr THEN {}
-        ELSE IF ~ev.readerr /\ SameFields(x, ev.x2) /\ rr.res = "ok" /\ SameFields(x, rr.x) THEN {} ELSE {"read back"})
+        ELSE IF ~ev.readerr /\ SameFields(x, ev.x2) /\ rrl.res = "ok" /\ SameFields(x, rrl.x) /\ (UrlClass(x.uri) = "ok" => rr.res = "ok") THEN {} ELSE {"read back"})
   \cup { "verify " \o ev.verifs[i].phase \o " #" \o ToString(i) : i \in { j \in 1..Len(ev.verifs) :
            LET v == ev.verifs[j]
                a == Accept(IF v.phase = "mem" THEN x ELSE ev.x2, v.t, sg.leaf)
-           IN ~(~v.panic /\ v.ok = a.ok /\ (v.ok => (v.ret = a.payload /\ v.ret = xin.payload))) } }
+               \* a request URL outside the plain grammar: whether net/url takes it is not specified here, so only
+               \* soundness is demanded (accepted => every condition holds)
+               exact == UrlClass((IF v.phase = "mem" THEN x ELSE ev.x2).uri) = "ok"
+           IN ~(~v.panic /\ (IF exact THEN v.ok = a.ok ELSE (v.ok => a.ok)) /\ (v.ok => (v.ret = a.payload /\ v.ret = xin.payload))) } }
 
 \* ---- kind "ver"
 VerFailures(ev) ==
